@@ -95,15 +95,90 @@ func (p *Program) extCalls(visit func(fi *FuncInfo, callee *types.Func, call *as
 	sort.Strings(keys)
 	for _, k := range keys {
 		fi := p.Funcs[k]
+		if fi.Decl == nil || fi.Decl.Body == nil {
+			continue
+		}
+		owner := p.sweepOwner(fi)
 		ast.Inspect(fi.Decl.Body, func(n ast.Node) bool {
 			if ce, ok := n.(*ast.CallExpr); ok {
 				if c := calleeOf(fi.Pkg.TypesInfo, ce); c != nil {
-					visit(fi, c, ce)
+					visit(owner, c, ce)
 				}
 			}
 			return true
 		})
 	}
+}
+
+// sweepOwner: the sweeps allow certain calls only inside named functions (whose contracts are verified). A small
+// contract-less helper that is executed in place when its ONLY caller is verified (see Expansion) is part of that
+// caller's text: extracting statements into such a helper must not be reported. The helper must be called from exactly
+// one function of the module, must not be used as a value, and must be spliced into that caller's expansion.
+func (p *Program) sweepOwner(fi *FuncInfo) *FuncInfo {
+	p.ownerOnce.Do(func() {
+		p.callersOf = map[*types.Func]map[*FuncInfo]bool{}
+		p.usedAsValue = map[*types.Func]bool{}
+		for _, g := range p.Funcs {
+			if g.Decl == nil || g.Decl.Body == nil {
+				continue
+			}
+			calleeIdents := map[*ast.Ident]bool{}
+			ast.Inspect(g.Decl.Body, func(n ast.Node) bool {
+				if ce, ok := n.(*ast.CallExpr); ok {
+					if c := calleeOf(g.Pkg.TypesInfo, ce); c != nil {
+						c = c.Origin()
+						if p.callersOf[c] == nil {
+							p.callersOf[c] = map[*FuncInfo]bool{}
+						}
+						p.callersOf[c][g] = true
+						switch f := ast.Unparen(ce.Fun).(type) {
+						case *ast.Ident:
+							calleeIdents[f] = true
+						case *ast.SelectorExpr:
+							calleeIdents[f.Sel] = true
+						}
+					}
+				}
+				return true
+			})
+			ast.Inspect(g.Decl.Body, func(n ast.Node) bool {
+				if id, ok := n.(*ast.Ident); ok && !calleeIdents[id] {
+					if f, ok := g.Pkg.TypesInfo.Uses[id].(*types.Func); ok {
+						p.usedAsValue[f.Origin()] = true
+					}
+				}
+				return true
+			})
+		}
+	})
+	cur := fi
+	for depth := 0; depth < 2; depth++ {
+		if cur.Obj == nil || (p.CS != nil && p.CS.Funcs[cur.Key] != nil) || p.usedAsValue[cur.Obj.Origin()] || cur.Obj.Exported() {
+			return cur
+		}
+		callers := p.callersOf[cur.Obj.Origin()]
+		if len(callers) != 1 {
+			return cur
+		}
+		var g *FuncInfo
+		for c := range callers {
+			g = c
+		}
+		if g == cur {
+			return cur
+		}
+		spliced := false
+		for _, h := range p.expansion(g).helpers {
+			if h == cur {
+				spliced = true
+			}
+		}
+		if !spliced {
+			return cur
+		}
+		cur = g
+	}
+	return cur
 }
 
 func sweepFSWriters(prog *Program) Sweep {
@@ -126,7 +201,8 @@ func sweepFSWriters(prog *Program) Sweep {
 
 func sweepWriteFilesCallers(prog *Program) Sweep {
 	s := Sweep{Name: "sweep.C17.writeFiles-called-only-from-GenerateConverters", Detail: "goverter.writeFiles has exactly one caller in the module: goverter.GenerateConverters (whose contract asserts err == nil at that call)"}
-	for k, fi := range prog.Funcs {
+	for _, fi := range prog.Funcs {
+		k := prog.sweepOwner(fi).Key
 		ast.Inspect(fi.Decl.Body, func(n ast.Node) bool {
 			switch e := n.(type) {
 			case *ast.CallExpr:
@@ -320,8 +396,8 @@ func sweepTypeInvConstructors(prog *Program) Sweep {
 		key := ti.Pkg + "." + ti.Type
 		for fk, fi := range prog.Funcs {
 			establishes := false
-			if fi.Con != nil {
-				for _, c := range fi.Con.Ensures {
+			if oc := prog.sweepOwner(fi).Con; oc != nil {
+				for _, c := range oc.Ensures {
 					if strings.Contains(c.Text, "TypeFieldsOK(result)") || strings.Contains(c.Text, "typeOK(result)") {
 						establishes = true
 					}
